@@ -417,6 +417,8 @@ func runC05(c *eng.Ctx) {
 	// ---- 3f. an explicit reset leaves an EMPTY queue at the new position: appended and acknowledged both become seq --------------------
 	c.Rule("PASS", qT+".SetAppendedSeq{appended = acknowledged = seq on every path}", func() { resetLeavesEmptyQueue(c) })
 	resetInOneHold(c, qT+".SetAppendedSeq", qMu, []string{qT + ".appendedSeq", qT + ".acknowledgedSeq"}, "seq")
+	c.Rule("PROV", qT+".GC", func() { gcBoundFromAck(c) })
+	c.Rule("ORDER", "pkg/queue.NewQueue{meta probed before the page is created}", func() { existenceProbedBeforeCreate(c, "pkg/queue.NewQueue", ".metaPageFct") })
 
 	// ---- 4. LAYOUT: index entry and meta page, writer/reader agreement -----------------------
 	c.Rule("LAYOUT", "pkg/queue.index-entry", func() { layoutIndexEntry(c) })
